@@ -72,7 +72,9 @@ def handlers(inner):
     return hs
 
 
-BINDNAMES = [("a",), ("b",), ("condition",), ("internal-panic",), ("b", "a"), ("condition", "a"), ("a", "condition"), ("internal-panic", "condition")]
+BINDNAMES = [("a",), ("b",), ("condition",), ("internal-panic",), ("b", "a"), ("condition", "a"), ("a", "condition"), ("internal-panic", "condition"),
+             # the catch-all BEFORE the explicit name: a real host panic walks past the catch-all and finds its own binding
+             ("condition", "internal-panic"), ("b", "condition", "internal-panic")]
 
 
 def exprs(depth, rnd=None, cap=None):
